@@ -1,7 +1,7 @@
 (* C05, step 6: assembling the property-level statements. *)
-From Coq Require Import ZArith Bool Ascii Arith List Sorted Lia.
-From CBI Require Import Lib.Data Model.C05 Model.C05a Spec.C05 Spec.C05f Model.C05r
-                        Proofs.C05t Proofs.C05s Proofs.C05h Proofs.C05b Proofs.C05n Proofs.C05f.
+From Coq Require Import ZArith Bool Ascii String Arith List Sorted Lia.
+From CBI Require Import Lib.Data Model.C05 Model.C05a Spec.C05 Spec.C05f Spec.C05i Model.C05r
+                        Proofs.C05t Proofs.C05s Proofs.C05h Proofs.C05b Proofs.C05n Proofs.C05f Proofs.C05i.
 Import ListNotations.
 
 Lemma cls_lines_eq ls : cls_lines ls = map cls_line ls.
@@ -210,4 +210,48 @@ Theorem nodes_spec_raw (t : list ascii) :
 Proof.
   intros He. destruct (F_scan_eq t He) as (ls & P & E). rewrite E. intros H1 H2 H3.
   exact (nodes_spec_text t ls P H1 H2 H3).
+Qed.
+
+(* ---------- ISO forms: the yardstick is the literal look-ahead reading of Spec/C05i.v ---------- *)
+(* the two finding classes as predicates of the text alone *)
+Definition in_class20 (t : list ascii) : bool := r_c20 (F_scan (norm_nl t)).
+Definition in_class22 (t : list ascii) : bool := r_c22 (F_scan (norm_nl t)).
+
+Theorem counted_lines_iso (t : list ascii) :
+  ends_bare_bs t = false ->
+  iso_wf (iso_scan t) = true -> in_class20 t = false -> in_class22 t = false ->
+  exists out total n,
+    M_file_source t = FsOk out total n /\
+    map (fun l : lline osl => (ll_lines l, match ll_cat l with CPPD => true | _ => false end)) out
+      = iso_logical (iso_scan t) /\
+    flat out = iso_counted t.
+Proof.
+  intros Hb Hwf H20 H22.
+  destruct (plines_of_text t) as [ls|] eqn:P; [|apply plines_none_iff in P; congruence].
+  destruct (iso_eq t ls P) as [Ewf Elog]. specialize (Elog (iso_wf_no_splice t Hwf)).
+  unfold in_class20, in_class22 in *. rewrite (F_scan_norm_eq t ls P) in H20, H22. rewrite Ewf in Hwf.
+  destruct (counted_lines_text t ls P Hwf H20 H22) as (out & total & Q1 & Q2 & Q3).
+  exists out, total, (length ls). unfold iso_counted. rewrite Elog. auto.
+Qed.
+
+Theorem nodes_spec_iso (t : list ascii) :
+  ends_bare_bs t = false ->
+  iso_wf (iso_scan t) = true -> in_class20 t = false -> in_class22 t = false ->
+  exists tr, M_parse_file t = Some tr /\
+    map (fun x => (n_kind x, n_lines x)) (t_nodes tr) = iso_nodes t /\
+    t_total_sloc tr = length (iso_counted t).
+Proof.
+  intros Hb Hwf H20 H22.
+  destruct (plines_of_text t) as [ls|] eqn:P; [|apply plines_none_iff in P; congruence].
+  destruct (iso_eq t ls P) as [Ewf Elog]. specialize (Elog (iso_wf_no_splice t Hwf)).
+  unfold in_class20, in_class22 in *. rewrite (F_scan_norm_eq t ls P) in H20, H22. rewrite Ewf in Hwf.
+  destruct (nodes_spec_text t ls P Hwf H20 H22) as (tr & Q1 & Q2 & Q3).
+  exists tr. unfold iso_nodes, iso_counted. rewrite Elog. auto.
+Qed.
+
+(* a text ending in a backslash that no new-line follows: the code raises, nothing is counted *)
+Theorem bare_backslash_raises (t : list ascii) :
+  ends_bare_bs t = true -> M_file_source t = FsErr "RuntimeError" /\ M_parse_file t = None.
+Proof.
+  intros Hb. apply plines_none_iff in Hb. unfold M_file_source, M_parse_file. rewrite Hb. auto.
 Qed.
